@@ -27,8 +27,8 @@ ASSUMPTIONS = [
 ]
 
 KINDS = ["write", "read", "timeout"]
-FOLLOW = {"v5": [k[1] for k in c04.NAMES if k[0] == "v5"],
-          "v1": [k[1] for k in c04.NAMES if k[0] == "v1"]}
+FOLLOW = {"v5": [k[1] for k in c04.PLAIN_NAMES if k[0] == "v5"],
+          "v1": [k[1] for k in c04.PLAIN_NAMES if k[0] == "v1"]}
 def _observed_bringup():
     """The APDU commands the real bring-up sends to a device found in signer mode, observed
     once from the code under test (so that the repair is compared with 'the full bring-up
@@ -44,7 +44,7 @@ BRINGUP = _observed_bringup()
 def cells(tier, seed):
     pl = c04.plan()
     out = []
-    for key in c04.NAMES:
+    for key in c04.PLAIN_NAMES:
         for i in range(len(pl[key])):
             for kind in KINDS:
                 for f in FOLLOW[key[0]]:
@@ -221,7 +221,7 @@ def run_repair_fault(c):
 @st.composite
 def histories(draw, tier):
     m = draw(st.sampled_from(["v5", "v5", "v5", "v1"]))
-    names = [k[1] for k in c04.NAMES if k[0] == m and k[1] != "uiHb"]
+    names = [k[1] for k in c04.PLAIN_NAMES if k[0] == m and k[1] != "uiHb"]
     steps = []
     for _ in range(draw(st.integers(2, 5))):
         r = draw(st.sampled_from(names))
@@ -311,7 +311,7 @@ def run_history(c):
 REQUIRED_LABELS = {t: ["kind:write", "kind:read", "kind:timeout", "repaired",
                        "retry-after-connect-failure", "exempt-exit-step", "history",
                        "repair-retried-after-failed-repair", "repair-fault:timeout",
-                       "faults:2"] + ["req:%s/%s" % k for k in c04.NAMES]
+                       "faults:2"] + ["req:%s/%s" % k for k in c04.PLAIN_NAMES]
                    for t in ("quick", "thorough")}
 
 
